@@ -124,7 +124,7 @@ NormT(T) ==
     [] T[1] \in {"dict", "odict", "ddict", "mapping", "mmapping", "mproxy", "chainmap"} -> <<T[1], NormT(T[2]), NormT(T[3])>>
     [] T[1] \in {"tuple", "union"} -> <<T[1], [i \in DOMAIN T[2] |-> NormT(T[2][i])]>>
     [] T[1] \in {"utuple", "ustar"} -> <<T[1], [i \in DOMAIN T[2] |-> NormT(T[2][i])], NormT(T[3]), [i \in DOMAIN T[4] |-> NormT(T[4][i])]>>
-    [] T[1] \in {"newtype", "stype"} -> <<T[1], T[2], NormT(T[3])>>
+    [] T[1] \in {"newtype", "stype", "alias695"} -> <<T[1], T[2], NormT(T[3])>>
     [] T[1] \in {"fwd", "tvarc", "tvarb"} -> <<T[1], T[2], NormT(T[3])>>
     [] OTHER -> T
 =============================================================================
